@@ -177,6 +177,21 @@ theorem volume_conserved {K : Type} [Field K] [CharZero K] {ax ax' : List Axis} 
     (((ax.map (·.s)).prod : Nat) : K) * volume (K := K) ax' = volume (K := K) ax :=
   Grid.volume_conserved hr hp hs
 
+/-- **volume_conserved for radial maps** (LogGrid, BrokenLogGrid, HPLogRGrid radii): pixel edges refine exactly —
+    edge `c` of the children of `i` is the parent's lower edge plus `c/s` of the parent's width; with `c = 0` and `c = s`
+    the children tile the parent's interval, so `sum_children (f(upper) - f(lower)) = f(upper_i) - f(lower_i)` for every
+    radial map `f` of the unit coordinate -/
+theorem edges_refine {K : Type} [Field K] [CharZero K] (a a' : Axis) (h : Refines a a') (hs : 0 < a.s)
+    (hp : 2 * a.pad ≤ a.n) (i : Nat) (hi : a.pad ≤ i) (c : Nat) (hpos : 0 < a.n + 2 * a.sh) :
+    edge (K := K) a'.n a'.sh (((a.s * (i - a.pad) + c : Nat) : K)) =
+      edge (K := K) a.n a.sh (i : K) + (c : K) / ((a.s : K) * ((a.n : K) + 2 * (a.sh : K))) :=
+  Grid.edges_refine a a' h hs hp i hi c hpos
+
+/-- `SimpleOpenGridAtLevel` coordinates `(i + shifts + 1/2) * distances` (real-valued shifts) round-trip exactly -/
+theorem simple_coord_roundtrip {K : Type} [Field K] [CharZero K] (n sh dist i : K) (hd : (n + 2 * sh) * dist ≠ 0) :
+    (((i + sh + 1 / 2) / (n + 2 * sh)) * ((n + 2 * sh) * dist)) / ((n + 2 * sh) * dist) * (n + 2 * sh) - sh - 1 / 2 = i :=
+  Grid.simple_coord_roundtrip n sh dist i hd
+
 /-! ### neighbourhoods -/
 
 theorem neighbourhood_in_range (n w i c : Nat) (hn : 0 < n) : neighbor n w i c < n := neighbor_lt n w i c hn
